@@ -99,6 +99,29 @@ def prepare_mir(log=print):
     return open(mirp).read(), srcp, hsh
 
 
+def prepare_extra_mir(pkg: str) -> str:
+    """MIR of a dependency crate (e.g. revm-database), dumped from the same scratch copy / lock file as the main dump"""
+    os.makedirs(os.path.join(CACHE, "mir"), exist_ok=True)
+    lockh = hashlib.sha256(open(os.path.join(REPO, "Cargo.lock"), "rb").read()).hexdigest()[:16]
+    path = os.path.join(CACHE, "mir", f"pkg-{pkg}-{lockh}.mir")
+    lock = open(os.path.join(CACHE, "mir.lock"), "w")
+    fcntl.flock(lock, fcntl.LOCK_EX)
+    try:
+        if not os.path.exists(path):
+            scratch = os.path.join(CACHE, "mir-src")
+            env = dict(os.environ, CARGO_NET_OFFLINE="true", CARGO_TARGET_DIR=os.path.join(CACHE, "target-mir"), RUSTFLAGS="")
+            r = subprocess.run(f"cargo +nightly rustc --offline -p {pkg} --lib -- -Zunpretty=mir -C debug-assertions=off -C overflow-checks=on",
+                               shell=True, cwd=scratch, env=env, capture_output=True, text=True)
+            if r.returncode != 0 or "fn " not in r.stdout:
+                raise RuntimeError(f"MIR dump of {pkg} failed:\n" + r.stderr[-2000:])
+            with open(path + ".tmp", "w") as f:
+                f.write(r.stdout)
+            os.rename(path + ".tmp", path)
+    finally:
+        fcntl.flock(lock, fcntl.LOCK_UN)
+    return path
+
+
 class Spec:
     """one harness: build(tr) -> Harness ; decided by one CBMC run (plus one --cover run for vacuity)"""
 
@@ -128,6 +151,8 @@ def run_spec(args):
         src = srcdefs.Sources(src_path, extra_roots=spec.cfg.get("extra_src", []))
         cfg = dict(noops=[r"metrics", r"tracing", r"ExecuteMetricsCollector", r"Histogram"], cap=3)
         cfg.update(spec.cfg)
+        if cfg.get("extra_mir_pkgs"):
+            cfg["extra_mir"] = [open(prepare_extra_mir(p_)).read() for p_ in cfg["extra_mir_pkgs"]]
         tr = translate.Translator(open(mir_path).read(), src, cfg)
         H = spec.build(tr)
         ctext = H.render()
